@@ -66,7 +66,8 @@ def run_valid(spec):
 
 
 # ------------------------------------------------------------------------------------------------
-FAULTS = ["pins_do_not_fit", "wire_too_thick", "wire_without_pitch", "clad_too_thick", "nonpositive_dimension", "duct_not_smaller_than_pitch",
+# (the first class is what every shard starts with - Hypothesis begins with the simplest example - so it gets the most cases)
+FAULTS = ["duct_not_smaller_than_pitch", "pins_do_not_fit", "wire_too_thick", "wire_without_pitch", "clad_too_thick", "nonpositive_dimension",
           "unequal_outer_ducts", "inverted_axial_region", "overlapping_axial_regions", "missing_boundary_condition",
           "two_boundary_conditions", "unknown_coolant", "unknown_duct_material", "unknown_correlation",
           "power_wrong_item_count", "power_axial_gap", "power_not_core_length", "power_negative", "power_not_a_number", "odd_duct_ftf",
@@ -110,6 +111,8 @@ def inject(spec, fault, mag, pick):
         else:
             a[key] = val
     elif fault == "duct_not_smaller_than_pitch":
+        # (judged on the assembly with the most ducts: every duct, not only the innermost, has to be inside the pitch)
+        a = max((s["assemblies"][n_] for n_ in names), key=lambda x: len(x["duct_ftf"]))
         s["core"]["assembly_pitch"] = max(a["duct_ftf"]) * (1 - (eps if eps > 1e-3 else 0.0))
     elif fault == "unequal_outer_ducts":
         if len(names) < 2:
@@ -373,6 +376,6 @@ def parts(tier):
     q = tier == "quick"
     return [
         Part("valid_inputs", run_valid, strategy=valid_specs(q), examples=160 if q else 6000, timeout=120),
-        Part("single_faults", run_fault, strategy=fault_specs(q), examples=200 if q else 6000, timeout=120),
+        Part("single_faults", run_fault, strategy=fault_specs(q), examples=240 if q else 6000, timeout=120),
         Part("text_fuzz", run_fuzz, strategy=fuzz_specs(q), examples=200 if q else 10000, timeout=60),
     ]
